@@ -363,6 +363,9 @@ func NewMultiaddrWithValue(ma multiaddr.Multiaddr) Multiaddr {
 
 // MarshalJSON returns a JSON-formatted multiaddress.
 func (maddr Multiaddr) MarshalJSON() ([]byte, error) {
+	if maddr.Multiaddr == nil {
+		return []byte("null"), nil
+	}
 	return maddr.Multiaddr.MarshalJSON()
 }
 
@@ -382,6 +385,9 @@ func (maddr *Multiaddr) UnmarshalJSON(data []byte) error {
 
 // MarshalBinary returs the bytes of the wrapped multiaddress.
 func (maddr Multiaddr) MarshalBinary() ([]byte, error) {
+	if maddr.Multiaddr == nil {
+		return nil, nil
+	}
 	return maddr.Multiaddr.MarshalBinary()
 }
 
